@@ -320,6 +320,18 @@ fn reply_tapes(rng: &mut Rng, a: u16) -> Vec<(Vec<u8>, &'static str)> {
         long.extend(enc_msg(&format!("RS.{}.PSH", a)));
         v.push((long, "over-long-line-hiding-a-frame"));
     }
+    // reply lines with more than 255 data pairs whose length byte is the count modulo 256 (or one off) and whose checksum is
+    // consistent, followed by a genuine reply
+    {
+        let mut r = Rng::new(16, 161);
+        for mut s in crate::gen::oversize_strings(&mut r).into_iter().take(8) {
+            if !s.ends_with(b"\r\n") {
+                s.extend_from_slice(b"\r\n");
+            }
+            s.extend(enc_msg(&format!("RS.{}.PLD", a)));
+            v.push((s, "over-long-consistent-line"));
+        }
+    }
     // reply lines in lower-case and mixed-case hex (a sign may send either)
     for m in [format!("RS.{}.PLD", 0x4B0Au16), format!("AO.{}.RPX", 0xFADEu16), format!("RS.{}.CFL", 0xABCDu16)] {
         let up = enc_msg(&m);
